@@ -24,6 +24,7 @@ RULE_DOC = {
     'R12c': 'f64::{MAX,MIN,MIN_POSITIVE,NAN,INFINITY,NEG_INFINITY,EPSILON} -> fconst_f64_*() getters with distinct uninterpreted spec constants (_shared/floats.rs)',
     'R13': 'lock-and-wait idiom on (Mutex, Condvar) -> single call on prelude Closed cell (blocking not modelled)',
     'R14': 'identifier hygiene for Verus keywords',
+    'R15': 'closure combinators on Option: `X.map_or(D, |v| E)` -> `(match X { Some(v) => E, None => D })`; `X.map(|v| E).unwrap_or(D)` likewise; `X.is_some_and(|v| E)` -> `(match X { Some(v) => E, None => false })` (identical semantics; D is evaluated lazily instead of eagerly - D must be side-effect free, which holds for the literals/variables it is applied to: anything else is left alone)',
 }
 
 
@@ -331,6 +332,90 @@ def r14_hygiene(text):
     return text, hits
 
 
+def r15_option_closures(text):
+    """X.map_or(D, |v| E) / X.map(|v| E).unwrap_or(D) / X.is_some_and(|v| E) -> match.  X is a path/field/call chain
+    without closures; D must be a literal, identifier or field path (side-effect free); E is any expression (the
+    closure body up to the closing parenthesis).  Anything that does not fit is left untouched."""
+    hits = 0
+    simple = re.compile(r"^\s*(?:-?[\w\.:']+(?:\(\))?|\"[^\"]*\")\s*$")
+    for _ in range(50):
+        m = mask(text)
+        mt = None
+        for cand in re.finditer(r'\.(map_or|is_some_and|map)\(', m):
+            name = cand.group(1)
+            ob = cand.end() - 1
+            try:
+                cb = match_close(m, ob)
+            except Exception:
+                continue
+            inner_m, inner = m[ob + 1:cb], text[ob + 1:cb]
+            args = _split_top_commas(inner, inner_m)
+            d = None
+            if name == 'map_or':
+                if len(args) != 2:
+                    continue
+                d, clo = args[0], args[1]
+                end = cb + 1
+            elif name == 'is_some_and':
+                if len(args) != 1:
+                    continue
+                d, clo = 'false', args[0]
+                end = cb + 1
+            else:
+                if len(args) != 1:
+                    continue
+                clo = args[0]
+                tail = re.match(r'\s*\.unwrap_or\(', m[cb + 1:])
+                if not tail:
+                    continue
+                ob2 = cb + 1 + tail.end() - 1
+                try:
+                    cb2 = match_close(m, ob2)
+                except Exception:
+                    continue
+                d = text[ob2 + 1:cb2]
+                end = cb2 + 1
+            cm = re.match(r'\s*(?:move\s+)?\|\s*(&?\s*(?:mut\s+)?\w+|_|\([\w\s,&]*\))\s*\|\s*(.*)$', clo, re.S)
+            if not cm or not simple.match(d):
+                continue
+            # receiver: walk back over a chain of idents, `.`, `::`, `()`/`(...)`/`[...]` groups and `?`
+            k = cand.start()
+            while k > 0:
+                ch = m[k - 1]
+                if ch.isalnum() or ch in '_.:?':
+                    k -= 1
+                elif ch in ')]':
+                    depth, j = 0, k - 1
+                    while j >= 0:
+                        if m[j] in ')]':
+                            depth += 1
+                        elif m[j] in '([':
+                            depth -= 1
+                            if depth == 0:
+                                break
+                        j -= 1
+                    if j < 0 or '|' in m[j:k]:
+                        break
+                    k = j
+                else:
+                    break
+            recv = text[k:cand.start()]
+            if not recv.strip() or recv.strip()[0] in '.?:':
+                continue
+            body = cm.group(2).strip()
+            if body.startswith('{') and body.endswith('}'):
+                body = body
+            pat = cm.group(1).strip()
+            rep = '(match %s { Some(%s) => %s, None => %s })' % (recv.strip(), pat, body, d.strip())
+            mt = (k, end, rep)
+            break
+        if not mt:
+            break
+        text = text[:mt[0]] + mt[2] + text[mt[1]:]
+        hits += 1
+    return text, hits
+
+
 RULES = {
     'R1': r1_async,
     'R2': r2_handoff,
@@ -346,6 +431,7 @@ RULES = {
     'R12f': r12f_float_minmax,
     'R12c': r12c_float_consts,
     'R14': r14_hygiene,
+    'R15': r15_option_closures,
 }
 # order in which enabled rules are applied (R2 needs `.await` still present)
-ORDER = ['R8', 'R2', 'R1', 'R6', 'R12', 'R12u64', 'R12usize', 'R12f', 'R12c', 'R4', 'R3', 'R7', 'R5', 'R14']
+ORDER = ['R8', 'R2', 'R1', 'R6', 'R15', 'R12', 'R12u64', 'R12usize', 'R12f', 'R12c', 'R4', 'R3', 'R7', 'R5', 'R14']
